@@ -77,18 +77,21 @@ Definition s_v1comm_desc : text := [73;68;51;118;49;32;67;111;109;109;101;110;11
 (* ------------------------------------------------------------------------------------------ *)
 (* int(str) for ASCII input, decimal formatting                                                 *)
 
-(* Py_UNICODE_ISSPACE: what str.strip(), int() and the regex class \s treat as white space *)
+(* Py_UNICODE_ISSPACE: what str.isspace() and the regex class \s treat as white space *)
 Definition conv_is_space (c : Z) : bool :=
   ((9 <=? c) && (c <=? 13)) || ((28 <=? c) && (c <=? 32)) || (c =? 0x85) || (c =? 0xA0) || (c =? 0x1680)
   || ((0x2000 <=? c) && (c <=? 0x200A)) || (c =? 0x2028) || (c =? 0x2029) || (c =? 0x202F)
   || (c =? 0x205F) || (c =? 0x3000).
+(* white space skipped by int(str): ASCII characters are tested with the C isspace (no 0x1c..0x1f),
+   the others with Py_UNICODE_ISSPACE *)
+Definition conv_is_int_space (c : Z) : bool := conv_is_space c && negb ((28 <=? c) && (c <=? 31)).
 Definition conv_is_digit (c : Z) : bool := (48 <=? c) && (c <=? 57).
 Definition conv_all_digits (l : text) : bool := forallb conv_is_digit l.
 
 Fixpoint conv_lstrip (l : text) : text :=
   match l with
   | [] => []
-  | c :: r => if conv_is_space c then conv_lstrip r else l
+  | c :: r => if conv_is_int_space c then conv_lstrip r else l
   end.
 Definition conv_strip (l : text) : text := rev (conv_lstrip (rev (conv_lstrip l))).
 
@@ -494,10 +497,14 @@ Fixpoint conv_join (sep : text) (vals : list text) : text :=
 Definition conv_join23 (sep : option text) (vals : list text) : list text :=
   match sep with Some s => [conv_join s vals] | None => vals end.
 
+(* type(self)(text=[ID3TimeStamp, ...]): ID3TimeStamp(ID3TimeStamp) copies the TEXT, i.e. re-parses the
+   canonical text (fields after the first None are forgotten) *)
+Definition conv_stamp_renorm (d : conv_stamp) : conv_stamp := conv_stamp_parse (conv_stamp_text d).
+
 Fixpoint conv_v23_frame (sep : option text) (f : frame) : frame :=
   match f with
   | FText id e v => FText id (conv_enc23 e) (conv_join23 sep v)
-  | FStamp id e v => FStamp id (conv_enc23 e) v
+  | FStamp id e v => FStamp id (conv_enc23 e) (map conv_stamp_renorm v)
   | FTxxx e d v => FTxxx (conv_enc23 e) d (conv_join23 sep v)
   | FComm e l d v => FComm (conv_enc23 e) l d (conv_join23 sep v)
   | FPeople id e p => FPeople id (conv_enc23 e) p
